@@ -117,6 +117,9 @@ fn generic_sweep(run: &Run, prop: &str) -> i32 {
         "C18" => {
             plan.promo = true;
             plan.castle_enemy = vec![vec![Kind::Q], vec![Kind::R], vec![Kind::P]];
+            // en passant with a slider of the capturing side behind the pawns: checks discovered by the removal
+            plan.ep_extra = if run.quick() { vec![Some((Color::W, Kind::Q))] } else { vec![None, Some((Color::W, Kind::Q)), Some((Color::W, Kind::R)), Some((Color::W, Kind::B))] };
+            plan.ep_restrict_king = true;
             plan.disamb = vec![(Kind::N, 2, None), (Kind::R, 2, None), (Kind::B, 2, None), (Kind::Q, 2, None), (Kind::N, 2, Some(Kind::P)), (Kind::Q, 2, Some(Kind::R))];
             if !run.quick() {
                 plan.disamb.extend([(Kind::N, 3, None), (Kind::Q, 3, None), (Kind::R, 3, None), (Kind::B, 3, None)]);
@@ -124,6 +127,9 @@ fn generic_sweep(run: &Run, prop: &str) -> i32 {
         }
         "C20" => {
             plan.see_family = Some(if run.quick() { 3 } else { 4 });
+            // positions with an en-passant target in which OTHER captures are judged (sliders crossing the passed square)
+            plan.ep_extra = if run.quick() { vec![Some((Color::W, Kind::Q)), Some((Color::B, Kind::Q))] } else { vec![Some((Color::W, Kind::Q)), Some((Color::W, Kind::R)), Some((Color::W, Kind::B)), Some((Color::B, Kind::Q)), Some((Color::B, Kind::R)), Some((Color::B, Kind::B))] };
+            plan.ep_restrict_king = true;
             plan.promo = true;
         }
         _ => {}
@@ -211,7 +217,11 @@ pub fn replay_other(run: &'static Run, kind: &str, case: &J) -> Option<i32> {
 
 fn ops_seeds(quick: bool) -> Vec<(String, crate::refchess::Pos, usize)> {
     let (small, big) = if quick { (4, 3) } else { (5, 4) };
-    families::seeds().iter().map(|s| (s.name.to_string(), crate::refchess::Pos::from_fen(s.fen).unwrap(), if s.big { big } else { small })).collect()
+    let mut v: Vec<(String, crate::refchess::Pos, usize)> = families::seeds().iter().map(|s| (s.name.to_string(), crate::refchess::Pos::from_fen(s.fen).unwrap(), if s.big { big } else { small })).collect();
+    for f in crate::ops::RAW_FEN_ROOTS {
+        v.push((format!("raw:{f}"), crate::refchess::Pos::from_fen(f).unwrap(), big));
+    }
+    v
 }
 
 fn c02_c03_c15(run: &Run, prop: &str) -> i32 {
@@ -244,7 +254,15 @@ fn c02_c03_c15(run: &Run, prop: &str) -> i32 {
     s += n;
     t += e;
     if prop == "C03" {
-        let (a, b) = keycomp::check(run);
+        let (a, b) = match crate::util::catch(|| keycomp::check(run)) {
+            Ok(x) => x,
+            Err(e) => {
+                // components are read through Game::from_state with positions that are not legal (a lone
+                // piece, an en-passant square anywhere): a panic there is outside the property's domain
+                run.machinery_error(format!("key components could not be read through the public API: {e}"));
+                (0, 0)
+            }
+        };
         s += a;
         t += b;
         run.count("distinct_keys_bound", keymap.len() as u64);
@@ -331,6 +349,10 @@ fn c11(run: &Run) -> i32 {
     run.family("E2-HISTORIES", &format!("{} (seed, start clock) pairs, all paths of length <= {} (no state merging), start clocks {{0,3,97,98,99,100}} with empty history", seeds.len(), l), n, e, true, "every node: repetition and fifty-move verdicts vs the path");
     s += n;
     t += e;
+    let (a, b) = crate::searchchk::c11_search(run);
+    s += a;
+    t += b;
+    run.require("search_draw_negative_baselines", 5);
     for f in ["repeated_positions", "clock_at_least_100", "clock_100_and_no_legal_move", "material_must_be_draw", "material_must_not_be_draw"] {
         run.require(f, 3);
     }
